@@ -1587,20 +1587,20 @@ def run(ck) -> None:
     ccases = [(c["spec"], c["passes"], c.get("input_seed", 0)) for c in corpus]
     failures, mism = check_cases(ck, ccases, "corpus")
     # generated cases
-    n_specs, n_seq = (30, 5) if not ck.thorough else (360, 8)
+    n_specs, n_seq = (30, 5) if not ck.thorough else (300, 8)
     cases = gen_cases(ck.rng, n_specs, n_seq)
     f2, m2 = check_cases(ck, cases, "gen")
     failures += f2
     mism += m2
     # models of different opsets through the same passes, in this one process
-    f3, m3 = check_cases(ck, multi_opset_cases(ck.rng, 12 if not ck.thorough else 120), "multiopset", structural=False)
+    f3, m3 = check_cases(ck, multi_opset_cases(ck.rng, 12 if not ck.thorough else 80), "multiopset", structural=False)
     failures += f3
     ck.hist("streams", "multi-opset-models")
-    f4, m4 = check_cases(ck, targeted_cases(ck.rng, 6 if not ck.thorough else 60), "targeted")
+    f4, m4 = check_cases(ck, targeted_cases(ck.rng, 6 if not ck.thorough else 40), "targeted")
     failures += f4
     mism += m4
     ck.hist("streams", "targeted-templates")
-    f5, m5 = check_cases(ck, reuse_cases(ck.rng, 6 if not ck.thorough else 60), "reuse")
+    f5, m5 = check_cases(ck, reuse_cases(ck.rng, 6 if not ck.thorough else 40), "reuse")
     failures += f5
     mism += m5
     ck.hist("streams", "reused-pass-objects")
